@@ -35,6 +35,13 @@ using SH = Gudhi::coxeter_triangulation::Permutahedral_representation<std::vecto
 
 static long long g_calls = 0;   // API calls executed and compared
 
+// UBSan (halt_on_error) terminates through its own "Die" path, not through a signal or the ASan hook: leave the
+// breadcrumb from the UBSan report hook (weak symbol of libubsan, same mechanism as __asan_on_error in harness.hpp).
+extern "C" __attribute__((used, visibility("default"))) void __ubsan_on_report(void) {
+  if (vf::g_in_case) vf::crash_out("UBSAN");
+  signal(SIGABRT, SIG_DFL);   // the runtime aborts next; one CRASH record per event is enough
+}
+
 #if VF_PART == 1
 static Pt pt_of(const std::vector<int>& v) { return Pt(v.begin(), v.end()); }
 
@@ -58,14 +65,15 @@ static std::vector<Pt> gudhi_vertices(const SH& s, size_t* count) {
 // PART 1: combinatorics
 // ====================================================================================================================
 struct UEntry { Rep rep; SH sh; std::vector<Pt> verts; };
-static std::map<int, std::vector<UEntry>> g_universe;   // d -> canonical simplices with base in {-1,0,1}^d
+static std::map<int, std::vector<UEntry>> g_universe;   // d -> canonical simplices with base in {ulo..uhi}^d
+static int g_ulo = -1, g_uhi = 1;
 
 static const std::vector<UEntry>& universe(int d) {
   auto it = g_universe.find(d);
   if (it != g_universe.end()) return it->second;
   std::vector<UEntry>& u = g_universe[d];
   auto parts = fk::ordered_partitions(d, true);
-  for (auto& y : fk::box_points(d, -1, 1))
+  for (auto& y : fk::box_points(d, g_ulo, g_uhi))
     for (auto& w : parts) {
       Rep r{y, w};
       u.push_back({r, fk::to_gudhi<SH>(r), fk::sorted_vertices(r)});
@@ -215,6 +223,7 @@ static void check_simplex(int d, const Rep& rep, bool canonical, const std::stri
   // --- is_face_of == vertex-set inclusion, over the universe -------------------------------------------------------
   const auto& U = universe(d);
   bool both = false;
+  if (pairs_mode == "none") return;
   if (pairs_mode == "base0") { if (!is_zero(rep.y)) return; both = true; }
   long long nt = 0, nf = 0;
   for (auto& t : U) {
@@ -250,6 +259,10 @@ int main(int argc, char** argv) {
   vf::install_handlers();
   vf::g_case_timeout = 60;
   std::string pairs = a.get("pairs", "base0");
+  {
+    std::vector<int> ub = vf::parse_ints(a.get("ubox", "-1,1"));     // base vertices of the is_face_of universe
+    g_ulo = ub[0]; g_uhi = ub[1];
+  }
   vf::Stats& st = vf::stats();
   if (!a.replay.empty()) {
     auto kv = vf::parse_kv(a.replay);
@@ -263,13 +276,15 @@ int main(int argc, char** argv) {
   }
   std::vector<int> dims = vf::parse_ints(a.get("dims", "1,2,3"));
   bool with_nc = a.geti("nc", 1) != 0;
+  std::vector<int> bases = vf::parse_ints(a.get("bases", "-1,1"));   // base vertices of the enumerated simplices
   long long idx = 0, nontrivial = 0, cases = 0;
+  std::set<std::string> shapes;
   for (int d : dims) {
     auto canon = fk::ordered_partitions(d, true);
     auto allp = fk::ordered_partitions(d, false);
     st.add("partitions.canonical.d" + std::to_string(d), a.shard == 0 ? (long long)canon.size() : 0);
     st.add("partitions.all.d" + std::to_string(d), a.shard == 0 ? (long long)allp.size() : 0);
-    for (auto& y : fk::box_points(d, -1, 1))
+    for (auto& y : fk::box_points(d, bases[0], bases[1]))
       for (auto& w : allp) {
         bool canonical = std::find(w.back().begin(), w.back().end(), d) != w.back().end();
         if (!canonical && !with_nc) continue;
@@ -283,10 +298,11 @@ int main(int argc, char** argv) {
         bool big = false;
         for (auto& p : w) if (p.size() >= 2) big = true;
         if (w.size() >= 2 && big) ++nontrivial;
-        st.distinct("partition_shapes", std::to_string(d) + ":" + shape_of(w));
+        shapes.insert(std::to_string(d) + ":" + shape_of(w));
         if (cases % 997 == 1) st.sample(enc);
       }
   }
+  st.maxi("partition_shapes_seen_by_one_process", (long long)shapes.size());
   st.add("ev.states", cases);
   st.add("ev.traces", cases);
   st.add("ev.transitions", g_calls);
@@ -313,7 +329,7 @@ static const i64 SIGN = 3000;                     // 5e-9  : a weight / gap from
 static const int NTR = 7;
 static const char* tr_name[NTR] = {"fk_identity", "matrix_2I", "shear_plus_offset", "identity_change_offset",
                                    "identity_change_matrix", "coxeter", "antidiagonal_signed_half"};
-static const double OFFS[4] = {0.5, -1.25, 2.0, 0.75};
+static const double OFFS[6] = {0.5, -1.25, 2.0, 0.75, -0.375, 1.5};
 
 struct Tri {
   std::unique_ptr<FK> tr;
@@ -499,33 +515,36 @@ static void check_locate(const Tri& T, const Case2& c, const std::vector<i64>& x
   st.add("locate.carrier_dim" + std::to_string(kw));
   if (kw < d) ++g_nontrivial;
   if (want.wrapped) st.add("locate.point_within_5e-10_below_integer");
-  std::ostringstream det;
-  det.precision(17);
-  det << "tr=" << tr_name[c.tr] << " scale=" << scale << " point=(";
-  for (int i = 0; i < d; ++i) det << (i ? "," : "") << p[i];
-  det << ") lattice=(";
-  for (int i = 0; i < d; ++i) det << (i ? "," : "") << (double)xl[i];
-  det << ") got{" << fk::str(got) << "} want{" << fk::str(want.rep) << "}";
+  std::vector<i64> lambda;
+  auto det = [&]() {   // only built when something disagrees
+    std::ostringstream o;
+    o.precision(17);
+    o << "tr=" << tr_name[c.tr] << " scale=" << scale << " point=(";
+    for (int i = 0; i < d; ++i) o << (i ? "," : "") << p[i];
+    o << ") lattice=(";
+    for (int i = 0; i < d; ++i) o << (i ? "," : "") << (double)xl[i];
+    o << ") got{" << fk::str(got) << "} want{" << fk::str(want.rep) << "}";
+    if (!lambda.empty()) o << " weights*DEN=" << vf::join(lambda, ",");
+    return o.str();
+  };
   bool canon = false;
   if (!fk::valid_rep(got, d, &canon) || !canon) {
-    vf::mismatch("C20:locate_point:invalid_representation", det.str());
+    vf::mismatch("C20:locate_point:invalid_representation", det());
     return;
   }
   ++g_calls;
-  if ((int)out.dimension() != (int)got.w.size() - 1) vf::mismatch("C20:dimension:of_located_simplex", det.str());
+  if ((int)out.dimension() != (int)got.w.size() - 1) vf::mismatch("C20:dimension:of_located_simplex", det());
   if (got == want.rep) { st.add("locate.agree"); return; }
-  std::vector<i64> lambda;
   bool inside = ref_weights(got, x, lambda);
-  det << " weights*DEN=" << vf::join(lambda, ",");
-  if (!inside) { vf::mismatch("C20:locate_point:point_not_in_returned_simplex", det.str()); return; }
+  if (!inside) { vf::mismatch("C20:locate_point:point_not_in_returned_simplex", det()); return; }
   bool neg_inner = false, neg0 = false;
   for (size_t j = 0; j < lambda.size(); ++j) if (lambda[j] <= NEGL) (j == 0 ? neg0 : neg_inner) = true;
-  if (neg_inner) vf::mismatch("C20:locate_point:negligible_weight_vertex_kept", det.str());
+  if (neg_inner) vf::mismatch("C20:locate_point:negligible_weight_vertex_kept", det());
   else if (neg0)   // only the weight of the base vertex y is negligible: some coordinate is within 5e-10 below an integer
     vf::mismatch(want.wrapped ? "C20:locate_point:negligible_weight_vertex_kept:coordinate_1e-10_below_integer"
                               : "C20:locate_point:negligible_weight_vertex_kept:integer_coordinate_rounded_below",
-                 det.str());
-  else vf::mismatch("C20:locate_point:differs_from_reference", det.str());
+                 det());
+  else vf::mismatch("C20:locate_point:differs_from_reference", det());
 }
 
 static void run_case(const Tri& T, const Case2& c) {
@@ -572,9 +591,9 @@ int main(int argc, char** argv) {
     c.kind = kv["k"]; c.d = atoi(kv["d"].c_str()); c.tr = atoi(kv["tr"].c_str()); c.sc = atoi(kv["sc"].c_str());
     if (c.kind == "pt") { c.x = fk::parse_ll(kv["x"]); c.x.resize(c.d, 0); }
     else { c.simplex = Rep{vf::parse_ints(kv["y"]), fk::parse_parts(kv["w"])}; c.simplex.y.resize(c.d, 0); }
-    vf::set_case(encode(c));
+    vf::set_case(c.kind == "construct" ? a.replay : encode(c));
     Tri T = make_tr(c.d, c.tr);
-    run_case(T, c);
+    if (c.kind != "construct") run_case(T, c);
     vf::end_case();
     vf::finish();
     return 0;
@@ -585,10 +604,11 @@ int main(int argc, char** argv) {
   std::vector<int> grid = vf::parse_ints(a.get("grid", "-6,12"));          // numerators over 6, inclusive range
   std::vector<int> pbase = vf::parse_ints(a.get("pbase", "-6,-3,0,2,3,6"));  // numerators over 6 of the perturbed points
   std::vector<int> peps = vf::parse_ints(a.get("peps", "60,6000"));        // perturbation sizes in 1/DEN (1e-10, 1e-8)
+  std::vector<int> bbox = vf::parse_ints(a.get("bbox", "-1,1"));           // base vertices of the barycentre simplices
   long long idx = 0, cases = 0;
   for (int d : dims) {
     auto canon = fk::ordered_partitions(d, true);
-    auto bases = fk::box_points(d, -1, 1);
+    auto bases = fk::box_points(d, bbox[0], bbox[1]);
     auto deltas = fk::box_points(d, -1, 1);
     for (int tr : trs) {
       vf::set_case("k=construct;d=" + std::to_string(d) + ";tr=" + std::to_string(tr));
